@@ -190,6 +190,56 @@ attr_kind!(
 );
 
 pub const N_KINDS: u32 = 4;
+/// kinds 4, 5, 6 are the kernels' own anchor attributes (no fault injection in their laws)
+pub const N_ALL_KINDS: u32 = 7;
+pub use honeycomb_kernels::utils::{EdgeAnchor, FaceAnchor, VertexAnchor};
+
+/// anchors cross the boundary as dimension * 2^32 + identifier
+pub fn enc_va(a: VertexAnchor) -> u64 {
+    match a {
+        VertexAnchor::Node(i) => u64::from(i),
+        VertexAnchor::Curve(i) => (1 << 32) + u64::from(i),
+        VertexAnchor::Surface(i) => (2 << 32) + u64::from(i),
+        VertexAnchor::Body(i) => (3 << 32) + u64::from(i),
+    }
+}
+pub fn dec_va(x: u64) -> VertexAnchor {
+    let i = (x & 0xffff_ffff) as u32;
+    match x >> 32 {
+        0 => VertexAnchor::Node(i),
+        1 => VertexAnchor::Curve(i),
+        2 => VertexAnchor::Surface(i),
+        _ => VertexAnchor::Body(i),
+    }
+}
+pub fn enc_ea(a: EdgeAnchor) -> u64 {
+    match a {
+        EdgeAnchor::Curve(i) => (1 << 32) + u64::from(i),
+        EdgeAnchor::Surface(i) => (2 << 32) + u64::from(i),
+        EdgeAnchor::Body(i) => (3 << 32) + u64::from(i),
+    }
+}
+pub fn dec_ea(x: u64) -> EdgeAnchor {
+    let i = (x & 0xffff_ffff) as u32;
+    match x >> 32 {
+        0 | 1 => EdgeAnchor::Curve(i),
+        2 => EdgeAnchor::Surface(i),
+        _ => EdgeAnchor::Body(i),
+    }
+}
+pub fn enc_fa(a: FaceAnchor) -> u64 {
+    match a {
+        FaceAnchor::Surface(i) => (2 << 32) + u64::from(i),
+        FaceAnchor::Body(i) => (3 << 32) + u64::from(i),
+    }
+}
+pub fn dec_fa(x: u64) -> FaceAnchor {
+    let i = (x & 0xffff_ffff) as u32;
+    match x >> 32 {
+        0..=2 => FaceAnchor::Surface(i),
+        _ => FaceAnchor::Body(i),
+    }
+}
 
 /// `CMapBuilder::from_n_darts(n)` with the attribute kinds of `mask` registered.
 pub fn build2(n: usize, mask: u32) -> CMap2<f64> {
@@ -205,6 +255,15 @@ pub fn build2(n: usize, mask: u32) -> CMap2<f64> {
     }
     if mask & 8 != 0 {
         b = b.add_attribute::<Vb>();
+    }
+    if mask & 16 != 0 {
+        b = b.add_attribute::<VertexAnchor>();
+    }
+    if mask & 32 != 0 {
+        b = b.add_attribute::<EdgeAnchor>();
+    }
+    if mask & 64 != 0 {
+        b = b.add_attribute::<FaceAnchor>();
     }
     b.build().expect("from_n_darts cannot fail")
 }
@@ -225,12 +284,15 @@ pub fn add_attrs2(mut b: CMapBuilder<2, f64>, mask: u32) -> CMapBuilder<2, f64> 
     b
 }
 
-pub fn read_attr2(m: &CMap2<f64>, k: u32, d: DartIdType) -> Option<u32> {
+pub fn read_attr2(m: &CMap2<f64>, k: u32, d: DartIdType) -> Option<u64> {
     match k {
-        0 => m.force_read_attribute::<Wt>(d).map(|v| v.0),
-        1 => m.force_read_attribute::<Ea>(d).map(|v| v.0),
-        2 => m.force_read_attribute::<Fa>(d).map(|v| v.0),
-        _ => m.force_read_attribute::<Vb>(d).map(|v| v.0),
+        0 => m.force_read_attribute::<Wt>(d).map(|v| u64::from(v.0)),
+        1 => m.force_read_attribute::<Ea>(d).map(|v| u64::from(v.0)),
+        2 => m.force_read_attribute::<Fa>(d).map(|v| u64::from(v.0)),
+        3 => m.force_read_attribute::<Vb>(d).map(|v| u64::from(v.0)),
+        4 => m.force_read_attribute::<VertexAnchor>(d).map(enc_va),
+        5 => m.force_read_attribute::<EdgeAnchor>(d).map(enc_ea),
+        _ => m.force_read_attribute::<FaceAnchor>(d).map(enc_fa),
     }
 }
 
@@ -264,7 +326,7 @@ pub fn dump2(m: &CMap2<f64>, mask: u32, out: &mut String) {
             Some(v) => write!(out, " 1 {} {}", ftok(v.x()), ftok(v.y())).unwrap(),
             None => out.push_str(" 0"),
         }
-        for k in 0..N_KINDS {
+        for k in 0..N_ALL_KINDS {
             if mask & (1 << k) != 0 {
                 match read_attr2(m, k, d) {
                     Some(a) => write!(out, " 1 {a}").unwrap(),
@@ -313,4 +375,60 @@ impl Res {
 /// Silence the default panic message (panics are expected outcomes of malformed cases).
 pub fn quiet_panics() {
     std::panic::set_hook(Box::new(|_| {}));
+}
+
+
+/// error class from the Debug rendering (several kernel error types are not nameable from
+/// outside their crate); core errors keep the codes of `sew_err_code`
+pub fn err_code_dbg(dbg: &str) -> u32 {
+    let first_num = |tag: &str| -> u32 {
+        dbg.find(tag)
+            .map(|i| {
+                dbg[i + tag.len()..]
+                    .chars()
+                    .take_while(char::is_ascii_digit)
+                    .collect::<String>()
+                    .parse()
+                    .unwrap_or(0)
+            })
+            .unwrap_or(0)
+    };
+    if dbg.contains("NonFreeBase(") {
+        return 10 + first_num("NonFreeBase(");
+    }
+    if dbg.contains("NonFreeImage(") {
+        return 20 + first_num("NonFreeImage(");
+    }
+    if dbg.contains("AlreadyFree(") {
+        return 30 + first_num("AlreadyFree(");
+    }
+    if dbg.contains("AsymmetricalFaces") {
+        return 40;
+    }
+    if dbg.contains("BadGeometry(") {
+        return 50 + first_num("BadGeometry(");
+    }
+    if dbg.contains("FailedAttributeOp") || dbg.contains("FailedMerge") || dbg.contains("FailedSplit") || dbg.contains("InsufficientData") {
+        return 60;
+    }
+    for (name, code) in [
+        ("VertexBound", 101),
+        ("UndefinedEdge", 102),
+        ("InvalidDarts", 103),
+        ("WrongAmountDarts", 104),
+        ("AlreadyTriangulated", 111),
+        ("NoEar", 112),
+        ("NonFannable", 113),
+        ("NotEnoughDarts", 114),
+        ("TooManyDarts", 115),
+        ("UndefinedFace", 116),
+        ("IncompleteEdge", 122),
+        ("NonCollapsibleEdge", 131),
+        ("InvertedOrientation", 132),
+    ] {
+        if dbg.starts_with(name) {
+            return code;
+        }
+    }
+    999
 }
